@@ -1,2 +1,74 @@
-(* Properties/C05.v — placeholder while the proofs are being written. *)
-From PV Require Import Common.Util Gen.HoldConsts Trig.Hold Trig.HoldCheck.
+(* Properties/C05.v — property theorems only; every proof is [exact <lemma>] (lemmas in Proofs/TrigHold.v). *)
+From PV Require Import Common.Util Gen.HoldConsts Trig.Hold Trig.HoldCheck Proofs.TrigHold.
+Local Open Scope Z_scope.
+
+(* C05: for every configuration (state_check_now unset/False/True, state_hold None/any S, state_hold_false None/any H —
+   in particular all 3x3x3 combinations of the property), every initial truth and every timed history in the
+   property's quantifier (strictly increasing times, no input within the code's 1 us epsilons of  p+S  or  p+H  for an
+   earlier instant p, no "any change" entry combined with state_hold_false), the run times and arguments produced by
+   each implementation model with all deviation switches off — legacy @state_trigger (trigger_watch), default-subsystem
+   @state_trigger (_cycle/_check_new_state/_check_state_hold), legacy task.wait_until, default-subsystem
+   task.wait_until — are exactly the Spec's. *)
+Theorem C05_timeline : forall dv c init h,
+  all_off dv -> sorted_times h = true -> no_ties c h = true -> any_ok c h = true ->
+  legacy_runs dv c init h = spec_runs false c init h
+  /\ dm_runs dv c init h = spec_runs false c init h
+  /\ wul_runs dv c init h = spec_runs true c init h
+  /\ wud_runs dv c init h = spec_runs true c init h.
+Proof. exact timeline. Qed.
+Print Assumptions C05_timeline.
+
+(* the hypotheses are satisfiable by a non-trivial history (hold, hold_false, check_now, irrelevant inputs) *)
+Theorem C05_timeline_inhabited :
+  sorted_times ex_hist = true /\ no_ties ex_cfg ex_hist = true /\ any_ok ex_cfg ex_hist = true
+  /\ spec_runs false ex_cfg true ex_hist = [(2500000, 0%N); (7500000, 4%N)]
+  /\ legacy_runs no_dev ex_cfg true ex_hist = [(2500000, 0%N); (7500000, 4%N)]
+  /\ dm_runs no_dev ex_cfg true ex_hist = [(2500000, 0%N); (7500000, 4%N)].
+Proof. exact timeline_hyps_inhabited. Qed.
+Print Assumptions C05_timeline_inhabited.
+
+(* last sentence of the property: removing every input that causes no evaluation (unwatched entities, attribute-only
+   updates) changes no run of any implementation model *)
+Theorem C05_irrelevant_no_effect : forall dv c init h,
+  all_off dv -> sorted_times h = true -> no_ties c h = true -> any_ok c h = true ->
+  let h' := filter (fun x => relevant (snd x)) h in
+  legacy_runs dv c init h' = legacy_runs dv c init h /\ dm_runs dv c init h' = dm_runs dv c init h
+  /\ wul_runs dv c init h' = wul_runs dv c init h /\ wud_runs dv c init h' = wud_runs dv c init h.
+Proof. exact irrelevant_no_effect. Qed.
+Print Assumptions C05_irrelevant_no_effect.
+
+(* first sentence of the property (state_hold unset): a run at definition time exists exactly when state_check_now is
+   set (default True for task.wait_until) and the expression is already true *)
+Theorem C05_definition_time : forall dv c init h,
+  all_off dv -> hold c = None -> sorted_times h = true -> no_ties c h = true -> any_ok c h = true ->
+  ((exists a, In (0, a) (legacy_runs dv c init h)) <-> cn_dec c && init = true)
+  /\ ((exists a, In (0, a) (dm_runs dv c init h)) <-> cn_dec c && init = true)
+  /\ ((exists a, In (0, a) (wul_runs dv c init h)) <-> cn_wu c && init = true)
+  /\ ((exists a, In (0, a) (wud_runs dv c init h)) <-> cn_wu c && init = true).
+Proof. exact definition_time. Qed.
+Print Assumptions C05_definition_time.
+
+(* what the correspondence relies on: any observed behaviour that the conformant Model reproduces satisfies the Spec *)
+Theorem C05_model_implies_spec : forall c, hcase_model_ok no_dev c = true -> hcase_spec_ok c = true.
+Proof. exact model_implies_spec. Qed.
+Print Assumptions C05_model_implies_spec.
+
+(* The faithful models of today's code violate the statement: one witness per open finding. *)
+Theorem C05_refuted_D14 : exists c init h, in_domain c h /\ dm_runs (only 14) c init h <> spec_runs false c init h.
+Proof. exact refuted_D14. Qed.
+Print Assumptions C05_refuted_D14.
+Theorem C05_refuted_D14_hold_false : exists c init h, in_domain c h /\ dm_runs (only 14) c init h <> spec_runs false c init h.
+Proof. exact refuted_D14_hold_false. Qed.
+Print Assumptions C05_refuted_D14_hold_false.
+Theorem C05_refuted_D50 : exists c init h, in_domain c h /\ dm_runs (only 50) c init h <> spec_runs false c init h.
+Proof. exact refuted_D50. Qed.
+Print Assumptions C05_refuted_D50.
+Theorem C05_refuted_D51 : exists c init h, in_domain c h /\ dm_runs (only 51) c init h <> spec_runs false c init h.
+Proof. exact refuted_D51. Qed.
+Print Assumptions C05_refuted_D51.
+Theorem C05_refuted_D52 : exists c init h, in_domain c h /\ wul_runs (only 52) c init h <> spec_runs true c init h.
+Proof. exact refuted_D52. Qed.
+Print Assumptions C05_refuted_D52.
+Theorem C05_refuted_D53 : exists c init h, in_domain c h /\ wud_runs (only 53) c init h <> spec_runs true c init h.
+Proof. exact refuted_D53. Qed.
+Print Assumptions C05_refuted_D53.
